@@ -55,14 +55,15 @@ fn c17_listener_ids() {
     unsafe { REG = [false; NFD]; if unreg { REG[1] = true; REG_DATA[1] = data; } CTL_CALLS = 0; }
     let r = if unreg { h.unregister_listener(201, EventSet::IN, data) } else { h.register_listener(201, EventSet::IN, data) };
     unsafe {
-        if data <= nq as u64 { assert!(r.is_err() && CTL_CALLS == 0); }
-        else if unreg { assert!(r.is_ok() && CTL_CALLS == 1 && !REG[1]); }
-        else {
-            assert!(r.is_ok() && CTL_CALLS == 1 && REG[1] && REG_DATA[1] == data && REG_EP[1] == 40);
-            // delivered with exactly the registered id: the dispatcher reads the id as `event.data() as u16`
+        if data <= nq as u64 { assert!(r.is_err() && CTL_CALLS == 0); }          // ids of queues and of the exit event are reserved
+        if r.is_ok() {
+            assert!(data > nq as u64 && CTL_CALLS == 1);
+            // an accepted id is delivered unchanged: the dispatcher reads it as `event.data() as u16`
             assert!((data as u16) as u64 == data);
-            assert!((data as u16) as usize != nq && (data as u16) as usize >= 1);
-        }
+            assert!((data as u16) as usize != nq && (data as u16) as usize >= 1);     // never confused with the exit event or a ring
+            if unreg { assert!(!REG[1]); } else { assert!(REG[1] && REG_DATA[1] == data && REG_EP[1] == 40); }
+        } else { assert!(CTL_CALLS == 0); }
+        if data > nq as u64 && data <= 65535 { assert!(r.is_ok()); }             // every deliverable id above the reserved range is accepted
     }
     core::mem::forget(h); core::mem::forget(kb); core::mem::forget(vr);
 }
